@@ -19,7 +19,9 @@ theorem bw_filterMap_run (I : Interp) (p : Params) (vals : Nat → Nat → V) (F
   | cons a t ih =>
     cases a with
     | expr d np nd => simp [argKey, argVal, bw_run_dep, ih]
-    | lit s => simp [argKey, argVal, ih]
+    | lit s =>
+      simp only [List.filterMap_cons, argKey, argVal]
+      exact ih
 
 /-- output partition `i` applies the operation to the `i`-th partition of every partitioned operand
     and to partition 0 of every broadcast operand -/
@@ -38,7 +40,9 @@ theorem bw_argVal_eq_argVec (p : Params) (vals : Nat → Nat → V) (rows : Nat 
   | cons a t ih =>
     have iht := ih (fun d np nd h => hv d np nd (List.mem_cons_of_mem _ h))
     cases a with
-    | lit s => simp [argVal, argVec, iht]
+    | lit s =>
+      simp only [List.filterMap_cons, argVal, argVec]
+      exact iht
     | expr d np nd =>
       cases hb : broadcastDep p np nd with
       | true => simp [argVal, argVec, hb, iht]
